@@ -1,3 +1,54 @@
-From Asynq Require Import Machine.
-Theorem C04_placeholder : True. Proof. exact I. Qed.
-Print Assumptions C04_placeholder.
+(* C04 — a batch is flushed only when no task can make progress.
+   Statements only; proofs in proofs/MachineC04.v (built on the C01/C06 invariants).
+   The scheduler machine reaches mode MAfterExec exactly when TaskScheduler._execute has emptied its task
+   stack; if the awaited task is then still uncomputed the next step is _continue_with_batch, i.e. a flush.
+   Proved for yield-only tree programs (any flush order, any batch kinds, keep_dependencies on or off):
+   at that moment there is a set S of stuck futures that contains the awaited task and is closed: every task
+   in S has started (its generator has been stepped at least once), waits for an uncomputed member of S, and
+   every one of its dependencies is computed or in S; the other members of S are uncomputed batch items.
+   Consequently every future reachable from the awaited task through the dependency lists of uncompleted
+   tasks is computed, an uncomputed batch item, or a started task that is blocked: none is unstarted or
+   runnable.
+   NOT proved (correspondence + monitors in harness/props/c04.py): that the items in S belong to a batch
+   that is scheduled and not yet flushed (model-side this is the invariant checked by the C04 monitor
+   "flush-with-runnable-task"/"item-not-scheduled"); programs with shared futures (DAGs), synchronous
+   re-entry (.value() inside a task) and the MAX_TASK_STACK_SIZE reset. *)
+From Asynq Require Import Machine Seq proofs.MachineC08 proofs.MachineC01 proofs.MachineC04.
+
+Theorem C04_flush_only_when_stuck_tree : forall P, pointwise P -> forall p, tree p -> forall n,
+  let h := fst (create [] (FTask p) (st0 P)) in
+  let s1 := snd (create [] (FTask p) (st0 P)) in
+  no_unwind P n (start h s1) -> c_mode (run P n (start h s1)) = MAfterExec ->
+  computed h (c_st (run P n (start h s1))) = false ->
+  exists S : fid -> Prop, S h /\ forall d, S d ->
+    let s := c_st (run P n (start h s1)) in
+    (exists tk, get d s = Some (mkFut None (KTask tk)) /\ (1 <= tk_iter tk)%Z /\
+                (exists e, In e (tk_deps tk) /\ S e) /\
+                (forall e, In e (tk_deps tk) -> computed e s = true \/ S e)) \/
+    (exists kind idx key a, get d s = Some (mkFut None (KItem kind idx key a))).
+Proof. exact flush_only_when_stuck_tree. Qed.
+Print Assumptions C04_flush_only_when_stuck_tree.
+
+Theorem C04_reachable_is_computed_or_stuck_tree : forall P, pointwise P -> forall p, tree p -> forall n,
+  let h := fst (create [] (FTask p) (st0 P)) in
+  let s1 := snd (create [] (FTask p) (st0 P)) in
+  no_unwind P n (start h s1) -> c_mode (run P n (start h s1)) = MAfterExec ->
+  computed h (c_st (run P n (start h s1))) = false ->
+  forall d, reach (c_st (run P n (start h s1))) h d ->
+    computed d (c_st (run P n (start h s1))) = true \/
+    (exists kind idx key a, get d (c_st (run P n (start h s1))) = Some (mkFut None (KItem kind idx key a))) \/
+    (exists tk, get d (c_st (run P n (start h s1))) = Some (mkFut None (KTask tk)) /\ (1 <= tk_iter tk)%Z /\
+                is_blocked tk (c_st (run P n (start h s1))) = true).
+Proof. exact reachable_is_computed_or_stuck_tree. Qed.
+Print Assumptions C04_reachable_is_computed_or_stuck_tree.
+
+(* non-vacuity: the C01 demo program reaches a flush point three times (steps 17, 25 and 39); at the
+   first two the awaited task is not computed *)
+Example C04_hypotheses_are_met :
+  let P := mkP [] 1000 false [] in
+  let h := fst (create [] (FTask c01_demo) (st0 P)) in
+  let s1 := snd (create [] (FTask c01_demo) (st0 P)) in
+  tree c01_demo /\ no_unwind_b P 300 (start h s1) = true /\
+  c_mode (run P 17 (start h s1)) = MAfterExec /\ computed h (c_st (run P 17 (start h s1))) = false /\
+  c_mode (run P 25 (start h s1)) = MAfterExec /\ computed h (c_st (run P 25 (start h s1))) = false.
+Proof. split; [exact c01_demo_tree|]. vm_compute. repeat split. Qed.
